@@ -280,10 +280,10 @@ impl World {
                     continue;
                 }
                 let cur = cur as usize;
-                if known[slot][exp] == cur {
+                if cur != 0 && known[slot][exp] == cur {
                     continue;
                 }
-                let which = (0..3).find(|&b| known[slot][b] == cur);
+                let which = if cur == 0 { None } else { (0..3).find(|&b| known[slot][b] == cur) };
                 self.violate(
                     VKind::Schedule,
                     format!(
@@ -291,6 +291,7 @@ impl World {
                         slot,
                         match which {
                             Some(b) => BACKEND_NAMES[b].to_string(),
+                            None if cur == 0 => "a null pointer".to_string(),
                             None => format!("an unknown pointer {:#x}", cur),
                         },
                         BACKEND_NAMES[exp]
